@@ -373,6 +373,68 @@ def run(ctx, depth):
         ctx.sample(sample0)
     ctx.families["C02/history"] = {"histories": n, "ops_total": sum(len(s["ops"]) for s in scs), "world_compared_per_op_in_coq": len(terms),
                                    "model_mismatches": len(mm)}
+    run_outage_family(ctx, depth)
+
+
+def run_outage_family(ctx, depth):
+    """event-driven execution through the controller's own work queue (monitor only): a long API outage — more than a
+    dozen consecutive failing reconciles — then the faults stop.  Nothing else happens to the set or its pods afterwards,
+    so only the retries the controller scheduled itself can bring it back: it must still converge."""
+    from props import gen
+    rng = ctx.rng
+    n = 16 if depth == "quick" else 300
+    gen.init_hashes()
+    scs = []
+    for _ in range(n):
+        reps = rng.choice([2, 3, 3, 4])
+        t = rng.choice([1, 2, 3])
+        rev = gen.revname(t)
+        s = rc.mkset(replicas=reps, tmpl=t, policy=rng.choice(["OrderedReady", "Parallel"]), claims=rng.choice([[], ["data"]]))
+        have = [i for i in range(reps) if rng.random() < 0.4]
+        s["status"].update(replicas=len(have), ready=len(have), current=len(have), updated=len(have), currentRevision=rev,
+                           updateRevision=rev, observedGeneration=s["gen"], collisionCount=0)
+        pods = [rc.mkpod(i, rev, claims=s["claims"], tmpl=t) for i in have]
+        claims = sorted({v["claim"] for p in pods for v in p["vols"] if v["claim"]})
+        api = rc.mkworld(s, pods, [rc.mkrev(rev, 1, t, hashlabel=gen.HASH[(t, 0)])], claims)
+        names = ["web-%d" % i for i in range(reps + 1)]
+        fails = rng.choice([14, 18, 22, 30])
+        ops = [{"op": "refresh", "what": "all", "notify": True}, {"op": "outage", "on": True}, {"op": "drain", "max": fails},
+               {"op": "outage", "on": False}]
+        for _r in range(2 * reps + 3):
+            ops += [{"op": "drain", "max": 6}]
+            ops += [{"op": "kubelet", "pod": nm, "ev": "gone"} for nm in names]
+            ops += [{"op": "kubelet", "pod": nm, "ev": "settle"} for nm in names]
+            ops += [{"op": "refresh", "what": "all", "notify": True}]
+        ops += [{"op": "drain", "max": 6}, {"op": "refresh", "what": "all", "notify": True}, {"op": "drain", "max": 6}]
+        # the informers start empty: the first refresh delivers the initial Add events, as an informer's first List does
+        sc = rc.scenario(api, cache=rc.mkworld(None, [], [], []), ops=ops, tmpls=(1, 2, 3))
+        sc["fast_queue"] = True
+        sc["_fails"] = fails
+        scs.append(sc)
+    outs = core.run_harness_parallel("reconcile", [{k: v for k, v in sc.items() if not k.startswith("_")} for sc in scs], shards=16)
+    long_runs = 0
+    for sc, out in zip(scs, outs):
+        ctx.evaluations += 1
+        ctx.count("family:outage")
+        drains = [st for st in out["steps"] if isinstance(st, dict) and "drain" in st]
+        failed = sum(1 for w in drains[0]["drain"] if w["result"] == "err") if drains else 0
+        if failed >= 16:
+            long_runs += 1
+        fin = out["final"]
+        fin["pods"] = fin.get("pods") or []
+        bad = converged(fin, sc["api"]["set"])
+        if bad:
+            bad = ["after an outage of %d consecutive failed reconciles and a fair suffix the set has not converged: %s" % (failed, "; ".join(bad[:3]))]
+        last = drains[-1]["drain"] if drains else []
+        if not bad and any([c for c in w["calls"] if c["verb"] not in ("list", "get")] for w in last):
+            bad.append("the last drain of the quiet tail still writes")
+        if bad:
+            ctx.violations.append({"family": "C02/outage", "input": {k: v for k, v in sc.items() if not k.startswith("_")},
+                                   "observed": {"final": out["final"], "failed_reconciles_in_outage": failed}, "clauses": bad,
+                                   "signature": {"kind": "C02", "clause": bad[0][:40]}})
+        ctx.nontriv(["outage", sc["api"]["set"]["replicas"], sc["_fails"]])
+    ctx.families["C02/outage"] = {"histories": n, "with_16_or_more_consecutive_failures": long_runs,
+                                  "tie": "monitor only (informer handlers + real work queue with a short backoff)"}
 
 
 def search(ctx):
